@@ -7,6 +7,7 @@ package ix
 
 import (
 	"fmt"
+	"os"
 	"strings"
 
 	"github.com/opsidian/parsley/parsley"
@@ -61,25 +62,28 @@ type placement struct {
 	sharedPrefix bool
 	// following: lengths of files added AFTER the file under test (a lookup must not depend on being the last file)
 	following []int
+	// fromDisk: the file is loaded with text.ReadFile from a scratch file and is NOT added to any set (a file on its
+	// own has base offset 1); the returned file set is empty
+	fromDisk bool
 }
 
 var placements = []placement{
-	{"alone", nil, false, false, false, nil},
-	{"after an empty file", []int{0}, false, false, false, nil},
-	{"after a 3-byte file", []int{3}, false, false, false, nil},
-	{"after two empty files", []int{0, 0}, false, false, false, nil},
-	{"after files of 2 and 5 bytes", []int{2, 5}, false, false, false, nil},
-	{"after a 998-byte file", []int{998}, false, false, false, nil},
-	{"after a 3-byte file, reader created before the file was added", []int{3}, true, false, false, nil},
-	{"registered after a 5-byte file, reader created, then registered again alone in a fresh set", []int{5}, false, true, false, nil},
-	{"after files of 2 and 3 bytes passed as a caller-owned list with spare capacity, from which the caller then builds another set", []int{2, 3}, false, false, true, nil},
-	{"second of four files (3 bytes before; 2 and 4 bytes after)", []int{3}, false, false, false, []int{2, 4}},
-	{"third of six files", []int{1, 2}, false, false, false, []int{0, 3, 1}},
+	{"alone", nil, false, false, false, nil, false},
+	{"after an empty file", []int{0}, false, false, false, nil, false},
+	{"after a 3-byte file", []int{3}, false, false, false, nil, false},
+	{"after two empty files", []int{0, 0}, false, false, false, nil, false},
+	{"after files of 2 and 5 bytes", []int{2, 5}, false, false, false, nil, false},
+	{"after a 998-byte file", []int{998}, false, false, false, nil, false},
+	{"after a 3-byte file, reader created before the file was added", []int{3}, true, false, false, nil, false},
+	{"registered after a 5-byte file, reader created, then registered again alone in a fresh set", []int{5}, false, true, false, nil, false},
+	{"after files of 2 and 3 bytes passed as a caller-owned list with spare capacity, from which the caller then builds another set", []int{2, 3}, false, false, true, nil, false},
+	{"second of four files (3 bytes before; 2 and 4 bytes after)", []int{3}, false, false, false, []int{2, 4}, false},
+	{"third of six files", []int{1, 2}, false, false, false, []int{0, 3, 1}, false},
 	// base offsets at the widths a packed cache key or a narrowed integer might assume (stub files: no data is allocated)
-	{"after a 65535-byte file", []int{65535}, false, false, false, nil},
-	{"after a 2 GiB file", []int{1<<31 - 1}, false, false, false, nil},
-	{"after files of 3 bytes and 4 GiB", []int{3, 1 << 32}, false, false, false, nil},
-	{"after files of 3 bytes and 8 GiB", []int{3, 1 << 33}, false, false, false, nil},
+	{"after a 65535-byte file", []int{65535}, false, false, false, nil, false},
+	{"after a 2 GiB file", []int{1<<31 - 1}, false, false, false, nil, false},
+	{"after files of 3 bytes and 4 GiB", []int{3, 1 << 32}, false, false, false, nil, false},
+	{"after files of 3 bytes and 8 GiB", []int{3, 1 << 33}, false, false, false, nil, false},
 }
 
 // stubFile stands in for a huge preceding file: it only has a length.
@@ -118,7 +122,31 @@ func scribble() {
 	}
 }
 
+// placementFromDisk is used by C09 only (the file's name is the scratch path, which differential checks would see)
+var placementFromDisk = placement{name: "loaded with text.ReadFile, not added to a file set", fromDisk: true}
+
+// diskScratch: one scratch file per process for the fromDisk placement (overwritten every time)
+var diskScratch string
+
 func place0(pl placement, name string, content []byte) (*parsley.FileSet, *text.File, *text.Reader, int) {
+	if pl.fromDisk {
+		if diskScratch == "" {
+			tf, err := os.CreateTemp("", "verif-ix-*")
+			if err != nil {
+				panic("IX harness: " + err.Error())
+			}
+			diskScratch = tf.Name()
+			tf.Close()
+		}
+		if err := os.WriteFile(diskScratch, content, 0o600); err != nil {
+			panic("IX harness: " + err.Error())
+		}
+		f, err := text.ReadFile(diskScratch)
+		if err != nil {
+			panic("IX harness: " + err.Error())
+		}
+		return parsley.NewFileSet(), f, text.NewReader(f), 1
+	}
 	if pl.sharedPrefix {
 		list := make([]parsley.File, 0, len(pl.preceding)+4)
 		base := 1
